@@ -141,8 +141,20 @@ def _names(w, nodes):
 def _job(job):
     which, shape = job
 
+    via_node = which.endswith("@node")      # the methods of the node (FNode.get_atoms / get_free_variables / size): same answers
+    if via_node:
+        which = which[:-5]
+
     def call(w, it, f):
         env = w.env
+        if which == "atoms" and w.nsort(f) != refsem.BOOL:
+            return None                  # atoms are defined for formulas
+        if via_node:
+            if which == "free":
+                return it.call(it.getattr(f, "get_free_variables"), [])
+            if which == "atoms":
+                return it.call(it.getattr(f, "get_atoms"), [])
+            return it.call(it.getattr(f, "size"), [int(which[4:])])
         if which == "free":
             o = w.new_walker("pysmt.oracles.FreeVarsOracle", env)
             return it.call(it.getattr(o, "get_free_variables"), [f])
@@ -170,6 +182,8 @@ def _job(job):
                 return proc.ProcResult(shape, "valid", "free symbols %s" % _names(w, exp))
             return proc.ProcResult(shape, "invalid", "free symbols reported %s, by definition %s" % (_names(w, got), _names(w, exp)))
         if which == "atoms":
+            if r is None:
+                return proc.ProcResult(shape, "vacuous", "not a Boolean formula")
             exp = ref_atoms(w, f)
             if exp is None:
                 return proc.ProcResult(shape, "vacuous", "not a Boolean formula")
@@ -197,8 +211,26 @@ def _job(job):
         if r == exp:
             return proc.ProcResult(shape, "valid", "measure %d = %d" % (m, exp))
         return proc.ProcResult(shape, "invalid", "size measure %d reported %r, by definition %d" % (m, r, exp))
-    res = proc.run_proc(shape, call, post=post)
-    return [(which, repr(shape), r.kind, str(r.detail)) for r in res]
+    res = proc.run_proc(shape, call, post=post, services="full" if via_node else True)
+    return [(which + ("@node" if via_node else ""), repr(shape), r.kind, str(r.detail)) for r in res]
+
+
+def root_shapes():
+    """terms whose *root* is the interesting node: a Boolean-valued array read, a constant array value, a leaf"""
+    from ..proc import S, BOOL, INT, Shape
+    i, j, x = S("i", INT), S("j", INT), S("x", INT)
+    p, q = S("p"), S("q")
+    ab = S("ab", ("ARRAY", INT, BOOL))
+    mb = S("mb", ("ARRAY", INT, ("ARRAY", INT, BOOL)))
+
+    def L(v, so=INT):
+        return ("lit", v, so)
+    kt = ("Array", ("type", INT), L(True, BOOL), ("dict", (L(1), p)))
+    ki = ("Array", ("type", INT), L(0), ("dict", (L(1), L(5)), (L(2), L(7))))
+    sh = [("Select", ab, i), ("Select", ("Store", ab, j, ("And", p, q)), i), ("Select", ("Select", mb, i), j), ("Select", kt, i),
+          ("Not", ("Select", ab, i)), ki, ("Array", ("type", INT), L(0)), ("Store", ki, i, x), ("Equals", ki, S("ai", ("ARRAY", INT, INT))),
+          ("Array", ("type", INT), ki), L(3), L(True, BOOL), x, p, ("Select", ki, L(1))]
+    return [Shape(t) for t in sh]
 
 
 def run(ctx):
@@ -209,12 +241,18 @@ def run(ctx):
     if ctx.tier == "thorough":
         shapes = proc.in_contexts(shapes)
     jobs = [(o, sh) for sh in shapes for o in ORACLES]
+    node_entries = ["free@node", "atoms@node"] + [o + "@node" for o in ORACLES if o.startswith("size")]
+    jobs += [(o, sh) for sh in root_shapes() for o in list(ORACLES) + node_entries]
+    jobs += [(o, sh) for sh in shapes[::5] for o in node_entries]
     outs = parallel_map(_job, jobs)
     label = {"free": "FreeVarsOracle", "atoms": "AtomsOracle", "qf": "QuantifierOracle", "types": "TypesOracle",
              "ctypes": "TypesOracle[custom_only]"}
     for res in outs:
         for which, shape, kind, detail in res:
-            name = label.get(which, "SizeOracle[%s]" % which[4:])
+            entry = ""
+            if which.endswith("@node"):
+                which, entry = which[:-5], " (method of the node)"
+            name = label.get(which, "SizeOracle[%s]" % which[4:]) + entry
             if kind == "valid":
                 rs.ok({"oracle": name, "shape": shape, "answer": detail})
             elif kind == "vacuous":
